@@ -9,6 +9,7 @@ import desper
 from hypothesis import strategies as st
 
 from vlib.core import PropertyViolation
+from vlib import worldops
 
 ID = 'C16'
 LEVEL = 'exploration'
@@ -95,7 +96,8 @@ def strategy():
         'ctor': st.integers(0, 3).map(lambda p: {'nest': bool(p % 2), 'trim': bool(p // 2)}),
         'pre': st.booleans(), 'root_override': st.booleans(),
         # between two population calls a file may turn into a directory holding files (same name)
-        'morph': st.lists(st.integers(0, 11), min_size=2, max_size=2)})
+        'morph': st.lists(st.integers(0, 11), min_size=2, max_size=2),
+        'amp': worldops.size_amp(none=24, sizes=(33, 70, 257, 259, 261))})
 
 
 def viol(clause, **d):
@@ -170,6 +172,19 @@ def _run(case, tmp, facts):
     allowed_dirs = set()
     nest_modes = []
     calls = list(case['calls'])
+    amp = case.get('amp') or 0
+    if amp:
+        # hot reloading: the last population call is repeated many times on the same map.  (Every nested
+        # population adds a layer and every lookup walks all layers: the number of repetitions is bounded by the
+        # size of the tree, so that a case stays well below a second.)
+        amp = max(8, min(amp, int((1500000 / max(1, len(files) * len(case["rules"]))) ** 0.5)))
+        last = dict(calls[-1])
+        if case['amp'] % 2:
+            last['nest'] = True        # odd sizes: the repeated call nests on conflict (a layer per call and key)
+        calls = calls + [dict(last) for _ in range(amp)]
+        facts['many_populations'] += 1
+        if amp > 256:
+            facts['more_than_256_populations'] += 1
     ci = -1
     while ci + 1 < len(calls):
         ci += 1
@@ -252,14 +267,15 @@ def _run(case, tmp, facts):
                     facts['file_became_directory'] += 1
             productions[key].append((c, ri, full))
         facts['calls'] += 1
-        check(rmap, rules, productions, allowed_dirs, nest_modes, pre_handle, facts)
+        if not amp or ci < 3 or ci % 64 == 0 or ci + 1 >= len(calls):
+            check(rmap, rules, productions, allowed_dirs, nest_modes, pre_handle, facts)
         morph = (case.get('morph') or [1, 1])[min(ci, 1)]
         # a file may turn into a directory of the same name - but only one whose name is not the trimmed key of a
         # sibling file (handle-vs-directory conflicts are not defined by the statement, see ASSUMPTIONS)
         eligible = [f for f in files
                     if not any(s != f and pt.dirname(s) == pt.dirname(f)
                                and pt.splitext(pt.basename(s))[0] == pt.basename(f) for s in files)]
-        if morph % 3 == 0 and eligible and ci + 1 < len(calls):
+        if morph % 3 == 0 and eligible and ci + 1 < len(calls) and ci < len(case['calls']):
             f = eligible[morph % len(eligible)]
             files.remove(f)
             os.remove(f)
@@ -277,6 +293,17 @@ def info(facts, case):
                   or facts['valueerror_for_regular_file_rule'])
     return {'nontrivial': bool(nontrivial), 'classes': sorted(k for k, v in facts.items() if v),
             'steps': len(case['nodes'])}
+
+
+def psig(prod, rules):
+    c, ri, full = prod
+    r = rules[ri]
+    return (r['factory'], full, pt.isabs(full), repr(list(r['args'])), repr(sorted(r['kwargs'].items())))
+
+
+def hsig(h):
+    fn, args, kwargs = h.ctor
+    return (type(h), pt.normpath(fn), pt.isabs(fn), repr(list(args)), repr(sorted(dict(kwargs).items())))
 
 
 def matches(h, prod, rules):
@@ -307,17 +334,19 @@ def check(rmap, rules, productions, allowed_dirs, nest_modes, pre_handle, facts)
         held = [layer[parts[-1]] for layer in cur.handles.maps if parts[-1] in layer]
         if len(prods) > 1:
             facts['key_conflict'] += 1
-        # every held handle is a distinct production of this key
-        left = list(prods)
+        # every held handle is a distinct production of this key (multiset of signatures: linear in the number of
+        # productions, which grows with every population call)
+        want = collections.Counter(psig(p, rules) for p in prods)
         for h in held:
-            hit = [p for p in left if matches(h, p, rules)]
-            if not hit:
+            sg = hsig(h)
+            if want[sg] <= 0:
                 viol('handle_not_built_from_the_file_path_and_the_rule_arguments', key=key, ctor=repr(h.ctor),
                      factory=type(h).__name__, expected=[(rules[p[1]]['factory'].__name__, p[2],
-                                                          rules[p[1]]['args'], rules[p[1]]['kwargs']) for p in prods])
-            left.remove(hit[0])
+                                                          rules[p[1]]['args'], rules[p[1]]['kwargs'])
+                                                         for p in prods[-6:]])
+            want[sg] -= 1
         last_call = max(p[0] for p in prods)
-        if not any(matches(visible, p, rules) for p in prods if p[0] == last_call):
+        if hsig(visible) not in {psig(p, rules) for p in prods if p[0] == last_call}:
             viol('visible_handle_is_not_from_the_newest_population_call', key=key, ctor=repr(visible.ctor))
         if all(nest_modes):
             if len(held) != len(prods):
